@@ -308,7 +308,28 @@ func (tb *termBuilder) term(v ssa.Value, at ssa.Instruction) *Term {
 	case *ssa.TypeAssert:
 		return &Term{Op: "typeassert", Name: typeStr(x.AssertedType), Args: []*Term{tb.term(x.X, x)}, V: v, In: x}
 	case *ssa.BinOp:
-		return &Term{Op: "binop", Name: x.Op.String(), Args: []*Term{tb.term(x.X, x), tb.term(x.Y, x)}, V: v, In: x}
+		// one spelling per order comparison: a > b is b < a, a >= b is b <= a; and per test of a three-way comparison:
+		// Cmp(a,b) == 1 is Cmp(b,a) == -1, 0 < Cmp(a,b) is Cmp(b,a) < 0, 0 <= Cmp(a,b) is Cmp(b,a) <= 0
+		op, l, r := x.Op.String(), tb.term(x.X, x), tb.term(x.Y, x)
+		switch x.Op {
+		case token.GTR:
+			op, l, r = "<", r, l
+		case token.GEQ:
+			op, l, r = "<=", r, l
+		}
+		switch op {
+		case "==", "!=":
+			if isCmpCall(l) && r.Op == "const" && r.Name == "1" {
+				l, r = swapCmp(l), constTerm("-1")
+			} else if isCmpCall(r) && l.Op == "const" && l.Name == "1" {
+				l, r = constTerm("-1"), swapCmp(r)
+			}
+		case "<", "<=":
+			if isCmpCall(r) && l.Op == "const" && l.Name == "0" {
+				l, r = swapCmp(r), constTerm("0")
+			}
+		}
+		return &Term{Op: "binop", Name: op, Args: []*Term{l, r}, V: v, In: x}
 	case *ssa.UnOp:
 		if x.Op == token.MUL {
 			return tb.load(x.X, x)
@@ -436,6 +457,33 @@ func (tb *termBuilder) callTerm(c *ssa.CallCommon, v ssa.Value, in ssa.Instructi
 	}
 	for _, a := range c.Args {
 		t.Args = append(t.Args, tb.term(a, in))
+	}
+	return canonOrderCall(t)
+}
+
+// canonOrderCall gives the four order methods of the repo's number types one spelling: GT(a,b) is LT(b,a),
+// GTE(a,b) is !LT(a,b), LTE(a,b) is !LT(b,a). (Their bodies are themselves pinned: C18 rules and RT1.)
+func canonOrderCall(t *Term) *Term {
+	if t.Op != "call" || len(t.Args) != 2 {
+		return t
+	}
+	var typ, m string
+	for _, ty := range []string{"(types.Int).", "(types.Dec).", "(types.Uint)."} {
+		if strings.HasPrefix(t.Name, ty) {
+			typ, m = ty, strings.TrimPrefix(t.Name, ty)
+		}
+	}
+	lt := func(a, b *Term) *Term {
+		return &Term{Op: "call", Name: typ + "LT", Args: []*Term{a, b}, V: t.V, In: t.In}
+	}
+	not := func(x *Term) *Term { return &Term{Op: "unop", Name: "!", Args: []*Term{x}, V: t.V, In: t.In} }
+	switch m {
+	case "GT":
+		return lt(t.Args[1], t.Args[0])
+	case "GTE":
+		return not(lt(t.Args[0], t.Args[1]))
+	case "LTE":
+		return not(lt(t.Args[1], t.Args[0]))
 	}
 	return t
 }
